@@ -4,9 +4,6 @@
 // `try_from` / `peek_handler`: on every path all peeks precede the first consuming call.
 // ======================================================================================
 
-/// identity of a keyword / punctuation token type that can be peeked
-pub trait Kw { spec fn id() -> int; }
-
 /// `syn::custom_keyword!(map / then / and_then)`: a unit struct usable as a type (`parse::<keywords::map>()`) and as a
 /// value (`peek(keywords::map)`)
 pub mod keywords {
@@ -24,29 +21,6 @@ impl Parse for keywords::map {}
 impl Parse for keywords::then {}
 impl Parse for keywords::and_then {}
 impl Parse for TokFatArrow {}
-
-impl ParseBuffer {
-    /// the next token is the keyword / token with this identity
-    pub uninterp spec fn peeks(&self, id: int) -> bool;
-    /// the token after the next one is ..
-    pub uninterp spec fn peeks2(&self, id: int) -> bool;
-    #[verifier::external_body]
-    pub fn peek<K: Kw>(&self, k: K) -> (r: bool) ensures r == self.peeks(K::id()), { unimplemented!() }
-    #[verifier::external_body]
-    pub fn peek2<K: Kw>(&self, k: K) -> (r: bool) ensures r == self.peeks2(K::id()), { unimplemented!() }
-    #[verifier::external_body]
-    pub fn span(&self) -> (r: Span) { unimplemented!() }
-}
-impl SynError {
-    #[verifier::external_body]
-    pub fn new<M>(span: Span, msg: M) -> (r: SynError) { unimplemented!() }
-}
-
-/// the next token is ONE token: it cannot be two different keywords at once
-#[verifier::external_body]
-pub proof fn axiom_one_next_token(input: &ParseBuffer, a: int, b: int)
-    ensures input.peeks(a) && input.peeks(b) ==> a == b,
-{}
 
 /// C13: the handler keyword standing in the input, if any (`kw =>`)
 pub open spec fn peeked_handler(input: &ParseBuffer) -> HKind {
